@@ -14,6 +14,7 @@
 From Coq Require Import ZArith Bool List.
 From ZV Require Import Model.Num Model.RefSem Model.GenF0 Proofs.RefSemProofs Proofs.GenF0Proofs.
 From ZV Require Model.GenF1 Proofs.GenF1Proofs.
+From ZV Require Model.Builtins Proofs.BuiltinsProofs.
 Import ListNotations.
 Open Scope Z_scope.
 
@@ -493,3 +494,290 @@ Proof. vm_compute. reflexivity. Qed.
 Example ex_out_of_fuel_is_distinct :
   o_res (eval_program 30 [EDefn 101 [100] None [ECall (EVar 101) [EVar 100]]; ECall (EVar 101) [EInt 1]]) = Fuel.
 Proof. vm_compute. reflexivity. Qed.
+
+
+(* ================================================================================================
+   Round 6: the DATA builtins.  A second, pure model (Model/Builtins.v: values int / float64 / char /
+   string / symbol / bool / nil / pair / array / builtin function; total functions mirroring
+   functions.go, listutils.go, arrayutils.go, strutils.go, numerictower.go, comparisons.go; the evaluator
+   beval of closed builtin-call trees with let and cond) and its laws, each for ALL values.  The model is
+   tied to the real builtins by the correspondence run of harness/cmd/c02b on every check. *)
+Module BuiltinLaws.
+Import ZV.Model.Builtins ZV.Proofs.BuiltinsProofs.
+Import ListNotations.
+Open Scope Z_scope.
+
+(* ---- lists: cons / first / rest / list / len ---- *)
+Theorem bi_cons_first_rest : forall n x y l,
+  bind (apply_n n FCons [x; l]) (fun p => apply_n n FFirst [p]) = Val x /\
+  bind (apply_n n FCons [x; l]) (fun p => apply_n n FRest [p]) = Val l /\
+  bind (apply_n n FCons [y; l]) (fun p => bind (apply_n n FCons [x; p]) (fun q => apply_n n FSecond [q])) = Val y /\
+  bind (apply_n n FList (x :: l :: nil)) (fun p => apply_n n FFirst [p]) = Val x.
+Proof.
+  intros. repeat split.
+  - exact (first_cons n x l).
+  - exact (rest_cons n x l).
+  - exact (second_cons_cons n x y l).
+  - exact (first_list n x [l]).
+Qed.
+Print Assumptions bi_cons_first_rest.
+Theorem bi_list_first_rest : forall n x l,
+  bind (apply_n n FList (x :: l)) (fun p => apply_n n FFirst [p]) = Val x /\
+  bind (apply_n n FList (x :: l)) (fun p => apply_n n FRest [p]) = apply_n n FList l.
+Proof. intros; split; [exact (first_list n x l) | exact (rest_list n x l)]. Qed.
+Print Assumptions bi_list_first_rest.
+Theorem bi_len_list : forall l, b_len (make_list l) = Val (VInt (zlen l)).
+Proof. exact len_make_list. Qed.
+Print Assumptions bi_len_list.
+Theorem bi_len_improper_fails : forall h t, is_list t = false -> b_len (VPair h t) = Fail.
+Proof. exact len_improper_fails. Qed.
+Print Assumptions bi_len_improper_fails.
+
+(* ---- concat: = append of all the arguments, for lists, arrays, strings (chars as UTF-8);
+   additive length; associativity; identity; rejection of a foreign argument ---- *)
+Theorem bi_concat_lists_is_app : forall x a (ls : list (list val)),
+  b_concat (List.map make_list ((x :: a) :: ls)) = Val (make_list ((x :: a) ++ List.concat ls)).
+Proof. exact concat_lists_is_app. Qed.
+Print Assumptions bi_concat_lists_is_app.
+Theorem bi_concat_arrays_is_app : forall a (ls : list (list val)),
+  b_concat (List.map VArr (a :: ls)) = Val (VArr (a ++ List.concat ls)).
+Proof. exact concat_arrays_is_app. Qed.
+Print Assumptions bi_concat_arrays_is_app.
+Theorem bi_concat_strings_is_utf8_app : forall a xs ps,
+  List.map str_piece xs = List.map Some ps ->
+  b_concat (VStr a :: xs) = Val (VStr (a ++ List.concat ps)).
+Proof. exact concat_strings_is_utf8_app. Qed.
+Print Assumptions bi_concat_strings_is_utf8_app.
+Theorem bi_concat_rejects : forall h t a s b x pre post rest,
+  (is_list b = false -> b_concat (VPair h t :: b :: rest) = Fail) /\
+  (is_list t = false -> b_concat (VPair h t :: b :: rest) = Fail) /\
+  ((forall l, x <> VArr l) -> b_concat (VArr a :: List.map VArr pre ++ x :: post) = Fail) /\
+  (str_piece x = None -> b_concat (VStr s :: x :: rest) = Fail).
+Proof.
+  intros. repeat split.
+  - exact (concat_lists_rejects_nonlist h t b rest).
+  - exact (concat_lists_rejects_improper_first h t b rest).
+  - exact (concat_arrays_rejects a pre x post).
+  - exact (concat_strings_rejects s x rest).
+Qed.
+Print Assumptions bi_concat_rejects.
+Theorem bi_len_concat : forall (a : list val) (s : list Z) x l ls ss,
+  bind (b_concat (List.map VArr (a :: ls))) b_len = Val (VInt (zlen a + zsum (List.map (@zlen val) ls))) /\
+  bind (b_concat (List.map VStr (s :: ss))) b_len = Val (VInt (zlen s + zsum (List.map (@zlen Z) ss))) /\
+  bind (b_concat (List.map make_list ((x :: l) :: ls))) b_len = Val (VInt (zlen (x :: l) + zsum (List.map (@zlen val) ls))).
+Proof.
+  intros. repeat split.
+  - exact (len_concat_arrays a ls).
+  - exact (len_concat_strings s ss).
+  - exact (len_concat_lists x l ls).
+Qed.
+Print Assumptions bi_len_concat.
+Theorem bi_concat_assoc_arrays : forall a b c,
+  bind (b_concat [VArr a; VArr b]) (fun ab => b_concat [ab; VArr c])
+  = bind (b_concat [VArr b; VArr c]) (fun bc => b_concat [VArr a; bc]).
+Proof. exact concat_assoc_arrays. Qed.
+Print Assumptions bi_concat_assoc_arrays.
+Theorem bi_concat_assoc_strings : forall a b c,
+  bind (b_concat [VStr a; VStr b]) (fun ab => b_concat [ab; VStr c])
+  = bind (b_concat [VStr b; VStr c]) (fun bc => b_concat [VStr a; bc]).
+Proof. exact concat_assoc_strings. Qed.
+Print Assumptions bi_concat_assoc_strings.
+Theorem bi_concat_assoc_lists : forall x a y b c,
+  bind (b_concat [make_list (x :: a); make_list (y :: b)]) (fun ab => b_concat [ab; make_list c])
+  = bind (b_concat [make_list (y :: b); make_list c]) (fun bc => b_concat [make_list (x :: a); bc]).
+Proof. exact concat_assoc_lists. Qed.
+Print Assumptions bi_concat_assoc_lists.
+Theorem bi_concat_identity : forall a s x l,
+  b_concat [VArr a; VArr []] = Val (VArr a) /\ b_concat [VArr []; VArr a] = Val (VArr a) /\
+  b_concat [VStr s; VStr []] = Val (VStr s) /\ b_concat [VStr []; VStr s] = Val (VStr s) /\
+  b_concat [make_list (x :: l); VNil] = Val (make_list (x :: l)) /\
+  b_concat [VArr a] = Val (VArr a) /\ b_concat [VStr s] = Val (VStr s) /\
+  b_concat [make_list (x :: l)] = Val (make_list (x :: l)).
+Proof. exact concat_identity. Qed.
+Print Assumptions bi_concat_identity.
+
+(* ---- append / aget / slice ---- *)
+Theorem bi_append_array : forall l x,
+  b_append false (VArr l) x = Val (VArr (l ++ [x])) /\
+  bind (b_append false (VArr l) x) b_len = Val (VInt (zlen l + 1)).
+Proof. exact append_array. Qed.
+Print Assumptions bi_append_array.
+Theorem bi_aget_append : forall l x,
+  b_aget [VArr (l ++ [x]); VInt (zlen l)] = Val x /\
+  (forall k, 0 <= k < zlen l -> b_aget [VArr (l ++ [x]); VInt k] = b_aget [VArr l; VInt k]).
+Proof. exact aget_append. Qed.
+Print Assumptions bi_aget_append.
+Theorem bi_aget_out_of_range : forall l k d, k < 0 \/ zlen l <= k ->
+  b_aget [VArr l; VInt k] = Fail /\ b_aget [VArr l; VInt k; d] = Val d.
+Proof. exact aget_out_of_range. Qed.
+Print Assumptions bi_aget_out_of_range.
+Theorem bi_append_string : forall s t c,
+  b_append false (VStr s) (VStr t) = Val (VStr (s ++ t)) /\
+  b_append false (VStr s) (VChar c) = Val (VStr (s ++ utf8 c)) /\
+  b_append true (VStr s) (VStr t) = Val (VStr (s ++ t)).
+Proof. exact append_string. Qed.
+Print Assumptions bi_append_string.
+Theorem bi_utf8_shape : forall r, (1 <= zlen (utf8 r) <= 4) /\ Forall (fun b => 0 <= b < 256) (utf8 r).
+Proof. exact utf8_shape. Qed.
+Print Assumptions bi_utf8_shape.
+Theorem bi_slice : forall (l : list val) (s : list Z) i j, 0 <= i <= j ->
+  (j <= zlen l -> b_slice (VArr l) (VInt i) (VInt j) = Val (VArr (sub l i j)) /\ zlen (sub l i j) = j - i) /\
+  (j <= zlen s -> b_slice (VStr s) (VInt i) (VInt j) = Val (VStr (sub s i j)) /\ zlen (sub s i j) = j - i).
+Proof. intros l s i j H. split; intro H2; [exact (slice_array l i j H H2) | exact (slice_string s i j H H2)]. Qed.
+Print Assumptions bi_slice.
+Theorem bi_slice_whole : forall l s,
+  b_slice (VArr l) (VInt 0) (VInt (zlen l)) = Val (VArr l) /\
+  b_slice (VStr s) (VInt 0) (VInt (zlen s)) = Val (VStr s).
+Proof. exact slice_whole. Qed.
+Print Assumptions bi_slice_whole.
+Theorem bi_slice_bad_bounds_fail : forall l s i j, i < 0 \/ j < i ->
+  b_slice (VArr l) (VInt i) (VInt j) = Fail /\ b_slice (VStr s) (VInt i) (VInt j) = Fail.
+Proof. exact slice_bad_bounds_fail. Qed.
+Print Assumptions bi_slice_bad_bounds_fail.
+
+(* ---- map / apply: one call per element, head first, the first failing call ends the map ---- *)
+Theorem bi_map_list_in_order : forall n g x l,
+  apply_n (S n) FMap [VFun g; make_list (x :: l)]
+  = bind (seq_out (List.map (fun y => apply_n n g [y]) (x :: l))) (fun r => Val (make_list r)).
+Proof. exact map_list_in_order. Qed.
+Print Assumptions bi_map_list_in_order.
+Theorem bi_map_array_in_order : forall n g l,
+  apply_n (S n) FMap [VFun g; VArr l]
+  = bind (seq_out (List.map (fun y => apply_n n g [y]) l)) (fun r => Val (VArr r)).
+Proof. exact map_array_in_order. Qed.
+Print Assumptions bi_map_array_in_order.
+Theorem bi_map_list_total : forall n g (f : val -> val) x l,
+  (forall y, In y (x :: l) -> apply_n n g [y] = Val (f y)) ->
+  apply_n (S n) FMap [VFun g; make_list (x :: l)] = Val (make_list (List.map f (x :: l))).
+Proof. exact map_list_total. Qed.
+Print Assumptions bi_map_list_total.
+Theorem bi_map_stops_at_first_failure : forall n g pre x post vs,
+  List.map (fun y => apply_n n g [y]) pre = List.map Val vs -> apply_n n g [x] = Fail ->
+  apply_n (S n) FMap [VFun g; VArr (pre ++ x :: post)] = Fail /\
+  (forall p0 v0, apply_n n g [p0] = Val v0 ->
+     apply_n (S n) FMap [VFun g; make_list (p0 :: pre ++ x :: post)] = Fail).
+Proof. exact map_stops_at_first_failure. Qed.
+Print Assumptions bi_map_stops_at_first_failure.
+Theorem bi_map_rejects_apply_spreads : forall n g,
+  (forall v, (forall l, v <> VArr l) -> (forall h t, v <> VPair h t) -> apply_n (S n) FMap [VFun g; v] = Fail) /\
+  (forall l, apply_n (S n) FApply [VFun g; VArr l] = apply_n n g l) /\
+  (forall x r, apply_n (S n) FApply [VFun g; make_list (x :: r)] = apply_n n g (x :: r)).
+Proof.
+  intros n g. split; [exact (map_rejects n g)|].
+  split; [intro l0; exact (proj1 (apply_spreads n g l0 VNil nil)) | intros x0 r0; exact (proj2 (apply_spreads n g nil x0 r0))].
+Qed.
+Print Assumptions bi_map_rejects_apply_spreads.
+
+(* ---- truthiness (expressions.go:IsTruthy) for every kind of value ---- *)
+Theorem bi_truthiness_table : forall v,
+  is_truthy v = false <-> v = VBool false \/ v = VInt 0 \/ v = VChar 0 \/ v = VNil.
+Proof. exact truthiness_table. Qed.
+Print Assumptions bi_truthiness_table.
+Theorem bi_truthiness_in_not_and_cond : forall n env c a b v,
+  apply_n n FNot [v] = Val (VBool (negb (is_truthy v))) /\
+  (beval env c = Val v -> beval env (BIf c a b) = if is_truthy v then beval env a else beval env b).
+Proof. intros. split; [exact (not_is_negation n v) | exact (if_selects env c a b v)]. Qed.
+Print Assumptions bi_truthiness_in_not_and_cond.
+
+(* ---- numbers (NumericFunction over C07's NumericDo) ---- *)
+Theorem bi_sum_product_wrap_once : forall l a,
+  (arith_fold OpAdd (VInt a) (List.map VInt l) = Val (VInt (fold_left Z.add l a)) \/
+   arith_fold OpAdd (VInt a) (List.map VInt l) = Val (VInt (wrap64 (fold_left Z.add l a)))) /\
+  (l <> [] -> arith_fold OpMul (VInt a) (List.map VInt l) = Val (VInt (wrap64 (fold_left Z.mul l a)))).
+Proof. intros. split; [exact (add_ints_is_wrapped_sum l a) | exact (mul_ints_is_wrapped_product l a)]. Qed.
+Print Assumptions bi_sum_product_wrap_once.
+Theorem bi_int_division : forall a b,
+  (b = 0 -> b_arith OpDiv [VInt a; VInt b] = Fail) /\
+  (b <> 0 -> Z.rem a b = 0 -> b_arith OpDiv [VInt a; VInt b] = Val (VInt (wrap64 (Z.quot a b)))) /\
+  (b <> 0 -> Z.rem a b <> 0 -> b_arith OpDiv [VInt a; VInt b] = Val (VFlt (fdiv (of_Z a) (of_Z b)))).
+Proof. exact int_division. Qed.
+Print Assumptions bi_int_division.
+Theorem bi_exact_division_inverts_multiplication : forall a b,
+  in_i64 a = true -> b <> 0 -> Z.rem a b = 0 ->
+  bind (b_arith OpDiv [VInt a; VInt b]) (fun q => b_arith OpMul [q; VInt b]) = Val (VInt a).
+Proof. exact exact_division_inverts_multiplication. Qed.
+Print Assumptions bi_exact_division_inverts_multiplication.
+Theorem bi_arith_edges : forall op v a x rest,
+  (op <> OpMul -> b_arith op [v] = Val v) /\ (to_num x = None -> b_arith op (a :: x :: rest) = Fail).
+Proof. intros. split; [exact (arith_single_argument op v) | exact (arith_rejects_non_numbers op a x rest)]. Qed.
+Print Assumptions bi_arith_edges.
+
+(* ---- comparison ---- *)
+Theorem bi_eq_reflexive_on_plain_data : forall n v, plain_data v = true ->
+  apply_n n (FCmp OpEq) [v; v] = Val (VBool true) /\ apply_n n (FCmp OpNe) [v; v] = Val (VBool false) /\
+  apply_n n (FCmp OpLe) [v; v] = Val (VBool true) /\ apply_n n (FCmp OpLt) [v; v] = Val (VBool false).
+Proof. exact eq_reflexive_on_plain_data. Qed.
+Print Assumptions bi_eq_reflexive_on_plain_data.
+Theorem bi_nil_compares_lowest : forall v, cmp_val VNil v = Val (match v with VNil => 0 | _ => -1 end).
+Proof. exact nil_compares_lowest. Qed.
+Print Assumptions bi_nil_compares_lowest.
+
+(* ---- symbols, flatten ---- *)
+Theorem bi_sym_str_round_trip : forall n s k,
+  bind (apply_n k FSym2Str [VSym n]) (fun x => apply_n k FStr2Sym [x]) = Val (VSym n) /\
+  bind (apply_n k FStr2Sym [VStr s]) (fun x => apply_n k FSym2Str [x]) = Val (VStr s).
+Proof. exact sym_str_round_trip. Qed.
+Print Assumptions bi_sym_str_round_trip.
+Theorem bi_flatten_nested_list : forall x l, b_flatten [make_list (x :: l)] = b_flatten (x :: l).
+Proof. exact flatten_nested_list. Qed.
+Print Assumptions bi_flatten_nested_list.
+Theorem bi_flatten_words : forall ws, ws <> [] ->
+  Forall (fun w => Forall (fun c => c <> 32) w) ws ->
+  b_flatten (List.map VStr ws) = Val (VArr (List.map VStr ws)).
+Proof. exact flatten_words. Qed.
+Print Assumptions bi_flatten_words.
+
+(* ---- the evaluator of builtin-call trees ---- *)
+Theorem bi_call_evaluates_arguments_first : forall env f,
+  (forall args vs, Forall2 (fun e v => beval env e = Val v) args vs ->
+     beval env (BCall f args) = apply_n depth f vs) /\
+  (forall pre x post vs, Forall2 (fun e v => beval env e = Val v) pre vs -> beval env x = Fail ->
+     beval env (BCall f (pre ++ x :: post)) = Fail).
+Proof.
+  intros. split.
+  - exact (call_applies_to_argument_values env f).
+  - exact (call_fails_with_first_failing_argument env f).
+Qed.
+Print Assumptions bi_call_evaluates_arguments_first.
+(* a value bound once and handed to a builtin is afterwards still the value it was (no builtin of the
+   model updates an argument; the sharing stream of the tie checks exactly this on the real code) *)
+Theorem bi_argument_survives_call : forall env e v f args r,
+  beval env e = Val v -> beval (v :: env) (BCall f args) = Val r ->
+  beval env (BLet e (BCall FList [BCall f args; BVar 0])) = Val (make_list [r; v]).
+Proof. exact argument_survives_call. Qed.
+Print Assumptions bi_argument_survives_call.
+
+(* ---- non-vacuity ---- *)
+(* (let [a (list 1 2)] (list (concat a (quote (3)) a) a)) = ((1 2 3 1 2) (1 2)) *)
+Example bi_ex_sharing :
+  beval [] (BLet (BCall FList [BLit (VInt 1); BLit (VInt 2)])
+                 (BCall FList [BCall FConcat [BVar 0; BLit (make_list [VInt 3]); BVar 0]; BVar 0]))
+  = Val (make_list [make_list [VInt 1; VInt 2; VInt 3; VInt 1; VInt 2]; make_list [VInt 1; VInt 2]]).
+Proof. vm_compute. reflexivity. Qed.
+(* (concat "a" 'é' "b") = "a\xc3\xa9b", its len is 4 *)
+Example bi_ex_utf8 :
+  beval [] (BCall FLen [BCall FConcat [BLit (VStr [97]); BLit (VChar 233); BLit (VStr [98])]]) = Val (VInt 4) /\
+  utf8 233 = [195; 169] /\ utf8 8364 = [226; 130; 172] /\ utf8 128512 = [240; 159; 152; 128] /\ utf8 55296 = [239; 191; 189].
+Proof. vm_compute. repeat split; reflexivity. Qed.
+(* (map first (list [1 2] [] [3])) fails at the second element; (map not (list 1 0)) = (false true) *)
+Example bi_ex_map :
+  beval [] (BCall FMap [BLit (VFun FFirst); BLit (make_list [VArr [VInt 1; VInt 2]; VArr []; VArr [VInt 3]])]) = Fail /\
+  beval [] (BCall FMap [BLit (VFun FNot); BLit (make_list [VInt 1; VInt 0])]) = Val (make_list [VBool false; VBool true]).
+Proof. vm_compute. split; reflexivity. Qed.
+(* (/ 7 2) is a float, (/ 6 3) = 2, (/ 1 0) fails, (+ 'a' 1) = 'b', (cond 0.0 1 2) = 1, (cond '\0' 1 2) = 2 *)
+Example bi_ex_numbers :
+  beval [] (BCall (FArith OpDiv) [BLit (VInt 6); BLit (VInt 3)]) = Val (VInt 2) /\
+  beval [] (BCall (FArith OpDiv) [BLit (VInt 1); BLit (VInt 0)]) = Fail /\
+  beval [] (BCall (FPred PFloat) [BCall (FArith OpDiv) [BLit (VInt 7); BLit (VInt 2)]]) = Val (VBool true) /\
+  beval [] (BCall (FArith OpAdd) [BLit (VChar 97); BLit (VInt 1)]) = Val (VChar 98) /\
+  beval [] (BIf (BLit (VFlt fzero)) (BLit (VInt 1)) (BLit (VInt 2))) = Val (VInt 1) /\
+  beval [] (BIf (BLit (VChar 0)) (BLit (VInt 1)) (BLit (VInt 2))) = Val (VInt 2).
+Proof. vm_compute. repeat split; reflexivity. Qed.
+(* (str (list -12 (quote ab) "a" [1 true])) = "(-12 ab \"a\" [1 true])" ; (flatten "a b" (quote (c "d e"))) *)
+Example bi_ex_str_flatten :
+  beval [] (BCall FStr [BLit (make_list [VInt (-12); VSym [97; 98]; VStr [97]; VArr [VInt 1; VBool true]])])
+  = Val (VStr [40; 45; 49; 50; 32; 97; 98; 32; 34; 97; 34; 32; 91; 49; 32; 116; 114; 117; 101; 93; 41]) /\
+  beval [] (BCall FFlatten [BLit (VStr [97; 32; 98]); BLit (make_list [VSym [99]; VStr [100; 32; 101]])])
+  = Val (VArr [VStr [97]; VStr [98]; VStr [99]; VStr [100]; VStr [101]]).
+Proof. vm_compute. split; reflexivity. Qed.
+End BuiltinLaws.
